@@ -107,6 +107,13 @@ def run(ctx):
         else:
             s = "".join(rng.choice(MODAL) + rng.choice(("", " ")) + rng.choice(good) for _ in range(rng.choice((1, 1, 2, 3, 4))))
             ahb.append(s + (rng.choice(MODAL) if form == "modal+bare" else ""))
+    # indicator structures that are NOT documented, assembled from well-formed condition expressions: a prefix-operator part followed by modal-mark parts
+    for _ in range(120 if ctx.quick else 1500):
+        if not good:
+            break
+        s = rng.choice(PREFIX) + rng.choice(("", " ")) + rng.choice(good)
+        s += "".join(rng.choice(("", " ")) + rng.choice(MODAL) + rng.choice(("", " ")) + rng.choice(good + [""]) for _ in range(rng.choice((1, 1, 2))))
+        ahb.append(s)
     ahb += ["Muss [1] U", "Muss[1]U", "Soll ([1]", "Kann [1] [", "X [1]O", "Mus[2]", "MU[1]", "MUU[1]", "Muss[2]C[3]", "Muſſ[1]", "K[1]", "", " ", "Muss", " Muss[1]",
             "Muss[1] ", "Muss [1]\x0bSoll[2]", "Muss[1]Soll", "Muss[1]X", "X", "x", "XX", "Muss[1P]", "Muss[UB1]", "Muss[1P0..1]", "Muss [1] Soll [2] Kann"]
     ahb += strings.MALFORMED_META
@@ -142,6 +149,14 @@ def run(ctx):
                              "oracle: accepted language = documented language (AHB expressions)")
         else:
             ctx.dist("ahb.stream", "other")
+        # ... and a prefix-operator part stands alone: nothing that begins with X/O/U and goes on with a modal mark is an AHB expression
+        if pyparse.ahb_must_reject(s):
+            for name, fn in (("parse_ahb_expression_to_single_requirement_indicator_expressions", lambda: parse_ahb(s)),
+                             ("parse_expression_including_unresolved_subexpressions", lambda: asyncio.run(resolve(s)))):
+                r = classify(fn)
+                if not (r[0] == "exn" and r[1] == "SyntaxErr"):
+                    ctx.fail(f"ahb-reject|{name}|{s}", {"entry": name, "string": s}, "SyntaxError (a prefix-operator part followed by a modal mark is none of the documented forms)",
+                             "accepted" if r[0] == "ok" else r[1], "oracle: nothing malformed is silently accepted (indicator structure of AHB expressions)")
         # an AHB expression whose indicator structure is fine but whose condition part is malformed must be rejected
         pa = classify(lambda: parse_ahb(s))
         if pa[0] == "ok" and isinstance(pa[1], Tree):
